@@ -53,7 +53,11 @@ def flow_value(rng, clean=True, consistent=True):
     v["row_id"] = G.gen_str(rng, names, clean)
     cond_t = dict((n, ft) for n, ft, _ in t[2])["edges"][1]
     edges = []
-    for _ in range(rng.choice([1, 1, 2, 3])):
+    n_edges = rng.choice([1, 1, 2, 3])
+    if rng.random() < G.P_LONG:
+        n_edges = rng.choice(G.LONG)      # a row many rows lead to: edges.10.from, edges.10.condition.value, …
+        G.STRATA["lists.long(10-12).edges"] += 1
+    for _ in range(n_edges):
         e = G.gen_value(rng, cond_t, names, clean, False, 1)
         if clean and R.all_default(cond_t, e):
             e["from_"] = "start"
@@ -260,6 +264,31 @@ def xlsx_safe(v):
     return all(xlsx_safe(x) for x in v)
 
 
+def strings_of(v):
+    if isinstance(v, str):
+        yield v
+    elif isinstance(v, dict):
+        for x in v.values():
+            yield from strings_of(x)
+    elif isinstance(v, list):
+        for x in v:
+            yield from strings_of(x)
+
+
+_XLSX_ILLEGAL = set(map(chr, list(range(0, 9)) + [11, 12] + list(range(14, 32))))   # openpyxl refuses them (not XML 1.0 characters)
+
+
+def file_skip(v, fmt):
+    """→ stratum name when the value is outside what the file FORMAT / its library carries (not a matter of the row
+    codec), else None.  CR: Excel normalises it to LF; RowDataSheet.export(csv) removes every CR of the exported
+    text, those inside cells too (reported as a finding of the file route; the row codec itself keeps CR)."""
+    if any("\r" in s for s in strings_of(v)):
+        return "file.skipped-carriage-return-in-cell"
+    if fmt == "xlsx" and any(c in _XLSX_ILLEGAL for s in strings_of(v) for c in s):
+        return "file.xlsx-skipped-character-illegal-in-worksheets"
+    return None
+
+
 # ------------------------------------------------------------------ run
 
 def gen_cases(ck, per_layout, flow_n, out_frac=0.25):
@@ -287,7 +316,15 @@ def gen_cases(ck, per_layout, flow_n, out_frac=0.25):
         r = rng.random()
         lay = real_layout if r < 0.4 else (rng.choice(adm) if r < 0.85 else rng.choice(lays))
         cases.append((fi, lay, v, "flow"))
+    take_value_strata(ck)
     return cases
+
+
+def take_value_strata(ck):
+    """strata counted by the shared value generator (harness/rowgen.py) → evidence"""
+    for k, n in G.STRATA.items():
+        ck.count("values." + k, n)
+    G.STRATA.clear()
 
 
 def known_finding_stream(ck):
@@ -399,7 +436,10 @@ def run(ck: core.Check):
         "lists of lists, untyped lists, sub-models, lists of sub-models, nested sub-models, remapped field names, "
         "headers that are prefixes of each other) + seeded random ones + the repo's FlowRowModel; target-header sets: all subsets "
         "of the packable positions when ≤ 64, sampled otherwise; values over | ; \\ space newline , \" é 日 1 0 true a b - False "
-        "plus field-name-shaped strings, defaults taken with probability 0.35 per field. 75 % of the values lie in the "
+        "plus field-name-shaped strings, defaults taken with probability 0.35 per field; 12 % of the strings get whitespace of any kind "
+        "(every code point with str.isspace()) or a zero-width space / BOM at an edge or inside — after trimming, the zero-width "
+        "characters stay at the edge of representable strings; 3 % of the lists (records, lists, basic values, the edges of a flow "
+        "row) have 10–12 entries, so that spread column names carry two-digit indices (f.10.sub, f.10.1). 75 % of the values lie in the "
         "representable domain (mirror of Props.C07.Representable), the rest exercise the tie only. A case is non-trivial / "
         "distinct when it is in the domain of the statement (oracle evaluated): distinct (schema, layout, value) triples."
     )
@@ -452,6 +492,10 @@ def run(ck: core.Check):
         fmt = "csv" if i < n_csv else "xlsx"
         if fmt == "xlsx" and not xlsx_safe(c[2]):
             ck.count("file.xlsx-skipped-number-precision")  # Excel numbers are IEEE doubles
+            continue
+        skip = file_skip(c[2], fmt)
+        if skip:
+            ck.count(skip)
             continue
         fc.append((c[0], c[1], c[2], fmt))
     fold(ck, par.pmap(file_worker, core.shard(fc, par.NPROC)))
